@@ -76,6 +76,8 @@ class Sim(object):
         L.sim_get_log.restype = ctypes.POINTER(Ev)
         L.sim_call.argtypes = [ctypes.POINTER(CallRec)]
         L.sim_call.restype = ctypes.c_int
+        L.sim_call_multi.argtypes = [ctypes.POINTER(CallRec), ctypes.c_int]
+        L.sim_call_multi.restype = ctypes.c_int
         L.sim_set_replay.argtypes = [ctypes.POINTER(Sw), ctypes.c_int]
         L.sim_set_replay.restype = None
         L.simsym_lookup.argtypes = [ctypes.c_char_p]
@@ -141,6 +143,58 @@ class Sim(object):
                 raise KeyError("kernel %s not in module" % name)
             self._syms[name] = p
         return p
+
+    def _fill(self, rec, name, args, ret):
+        rec.fn = self.sym(name)
+        ni = nf = ns = 0
+        for kind, v in args:
+            if kind == "p":
+                v = v.ctypes.data if v is not None else 0
+                kind = "i"
+            if kind == "i":
+                v = int(v)
+                if ni < 6:
+                    rec.iargs[ni] = v
+                    ni += 1
+                else:
+                    rec.sargs[ns] = v
+                    ns += 1
+            elif kind in ("d", "f"):
+                x = float(v) if kind == "d" else _f32_as_double_bits(v)
+                if nf < 8:
+                    rec.fargs[nf] = x
+                    nf += 1
+                else:
+                    rec.sargs[ns] = _double_as_long(x)
+                    ns += 1
+            else:
+                raise ValueError(kind)
+            if ns > 16:
+                raise ValueError("too many stack arguments")
+        rec.ret_kind = 0 if ret in ("int", "void") else 1
+
+    @staticmethod
+    def _ret(rec, ret):
+        if ret == "void":
+            return None
+        if ret == "int":
+            return ctypes.c_int32(rec.ret_l & 0xFFFFFFFF).value
+        if ret == "double":
+            return rec.ret_d
+        if ret == "float":
+            return struct.unpack("<f", struct.pack("<d", rec.ret_d)[:4])[0]
+        raise ValueError(ret)
+
+    def call_multi(self, calls):
+        """calls: list of (name, args, ret) made by concurrent caller threads; returns (aborted, [return values])"""
+        n = len(calls)
+        recs = (CallRec * n)()
+        for k, (name, args, ret) in enumerate(calls):
+            self._fill(recs[k], name, args, ret)
+        ab = self.lib.sim_call_multi(recs, n)
+        if ab:
+            return ab, None
+        return 0, [self._ret(recs[k], calls[k][2]) for k in range(n)]
 
     def call(self, name, args, ret="int"):
         """args: list of (kind, value); kind in 'p' (numpy array -> pointer), 'i' (integer), 'd' (double),
